@@ -43,4 +43,8 @@ def _patterns_C14(rep, spec, verbose=False, only=None):
     from . import patterns
     return patterns.run_c14(rep, spec, verbose=verbose, only=only)
 
-EXTRA = {'C06': _patterns_C06, 'C08': _patterns_C08, 'C17': _sites_C17, 'C14': _patterns_C14}
+def _patterns_C07(rep, spec, verbose=False, only=None):
+    from . import patterns
+    return patterns.run_c07(rep, spec, verbose=verbose, only=only)
+
+EXTRA = {'C07': _patterns_C07, 'C06': _patterns_C06, 'C08': _patterns_C08, 'C17': _sites_C17, 'C14': _patterns_C14}
